@@ -21,6 +21,8 @@ import (
 type FaultSpec struct {
 	Pos  int    `json:"pos"`
 	Kind string `json:"kind"`
+	// Chg, if set, replaces Pos (ssh families): index among the change lines.
+	Chg *int `json:"chg,omitempty"`
 }
 
 type BannerSpec struct {
